@@ -111,8 +111,9 @@ func tokenize(s string) ([]token, error) {
 		c, l := utf8.DecodeRuneInString(s[i:])
 
 		switch {
-		case unicode.IsSpace(c):
-			// ignore
+		case c == ' ' || c == '\t' || c == '\n' || c == '\f' || c == '\r':
+			// ignore. Only these are white space for SQLite; a no-break
+			// space (or any other non-ASCII character) is part of a name.
 		case unicode.IsLetter(c) || c == '_':
 			bt, bl := readBareword(s[i:])
 			tnr := tBare
